@@ -62,7 +62,7 @@ theorem genDelayed_eq (e : Env) (bad : Nat → Bool) (f : Nat) (t : LThunk) :
 
 theorem genMap_eq (s : LL) (f : MArg) : genMap s f = mapFull s f := by
   unfold genMap mapFull
-  simp only [genCopy, LL.setCallables, Py.list, PyIter.iter, PyLen.len, MArg.lenE]
+  simp only [genCopy, LL.setCallables, Py.list, PyIter.iter, PyLen.len, MArg.lenE, ToFnId.fid]
   split <;> (try split) <;> (try split) <;> simp_all [Except.bind, id, map_zip_eq_zipWith]
 
 theorem genLen_eq (s : LL) : genLen s = s.callables.length := by
@@ -121,15 +121,20 @@ theorem genImporterFor_eq (f : FileEnt) (known : List Nat) : genImporterFor f kn
 
 theorem genAttachLazy_eq (built : List LL) (r : Option Nat) (lmx : Option Unit) :
     genAttachLazy built r lmx = attachLazyFull built r lmx := by
-  unfold genAttachLazy attachLazyFull
-  cases lmx <;> cases r <;> simp only [Option.isNone_none, Option.isNone_some, Option.isSome_none, Option.isSome_some,
-    Bool.not_true, Bool.not_false, Bool.and_self, Bool.false_and, Bool.and_false, Bool.false_eq_true, if_false, if_true]
-  rename_i u r0
-  simp only [forLoop_eq_foldl, PyIter.iter, id]
-  rw [foldl_enumerate_set (fun x : LL =>
-    (⟨List.zipWith LThunk.app ((List.range x.callables.length).map ((some r0).getD 0 + ·)) x.callables⟩ : LL))]
-  · intro l k x
-    simp [genMap_eq, mapFull_list, PyLen.len, Py.range, Py.frameResolver, Function.comp_def]
+  cases lmx with
+  | none => cases r <;> simp [genAttachLazy, attachLazyFull]
+  | some u =>
+    cases r with
+    | none => simp [genAttachLazy, attachLazyFull]
+    | some r0 =>
+      unfold genAttachLazy attachLazyFull
+      simp only [Option.isNone_some, Option.isSome_some, Bool.or_self, Bool.or_false, Bool.false_or, Bool.and_self,
+        Bool.and_true, Bool.true_and, Bool.not_false, Bool.not_true, Bool.false_eq_true, if_false, if_true,
+        forLoop_eq_foldl, PyIter.iter, id]
+      rw [foldl_enumerate_set (fun x : LL =>
+        (⟨List.zipWith LThunk.app ((List.range x.callables.length).map ((some r0).getD 0 + ·)) x.callables⟩ : LL))]
+      · intro l k x
+        simp [genMap_eq, mapFull_list, PyLen.len, Py.range, Py.frameResolver, Function.comp_def]
 
 theorem genImport_eq (w : ImportWorld) (f : FileEnt) (known : List Nat) (r : Option Nat) (lmx att asset kw : Option Unit) :
     genImport w f known r lmx att asset kw = importFull w f known r lmx att := by
